@@ -34,7 +34,9 @@ func fail(kind, what, cs, exp, got, class string) {
 
 // ---------- value / tag generators ----------
 
-var tagList = []int{1, 2, 15, 16, 2047, 2048, 1<<21 - 1, 1 << 21, 1<<26 - 1, 1 << 26, 1 << 28, 1<<29 - 1}
+// every boundary of the encoded key size (field numbers 15|16, 2047|2048, 2^18-1|2^18, 2^25-1|2^25), the
+// boundaries of the field number's own varint size (2^21, 2^28 ...) and the extremes
+var tagList = []int{1, 2, 15, 16, 2047, 2048, 1<<18 - 1, 1 << 18, 1<<18 + 1, 1<<21 - 1, 1 << 21, 1<<25 - 1, 1 << 25, 1<<25 + 1, 1<<26 - 1, 1 << 26, 1 << 28, 1<<29 - 2, 1<<29 - 1}
 
 func boundaryRaws(k kind) []uint64 {
 	set := map[uint64]struct{}{}
